@@ -1,8 +1,8 @@
 SPECIFICATION Spec
 CONSTANTS
-  Family = "scale1"
+  Family = "scale1d"
+  MinRows = 1
   MaxRows = 3
-  MaxRows2 = 2
   NumsS = {0, 1, 3}
   NumsI = {0, 1, 3}
   Usings = {0, 1, 2}
